@@ -69,6 +69,13 @@ var deepLeaves = []fcheck.Leaf{
 	{Path: []string{"a", "inner", "x"}, Reps: []sch.FieldRepetitionType{req, req, req}, Type: sch.Type_INT32},
 	{Path: []string{"b", "inner", "x"}, Reps: []sch.FieldRepetitionType{opt, opt, opt}, Type: sch.Type_FLOAT},
 	{Path: []string{"b", "inner", "y"}, Reps: []sch.FieldRepetitionType{opt, opt, req}, Type: sch.Type_BOOLEAN},
+	{Path: []string{"meta", "owner", "tags"}, Reps: []sch.FieldRepetitionType{req, opt, rep}, Type: sch.Type_BYTE_ARRAY},
+	{Path: []string{"meta", "owner", "name"}, Reps: []sch.FieldRepetitionType{req, opt, req}, Type: sch.Type_BYTE_ARRAY},
+	{Path: []string{"meta", "rev"}, Reps: []sch.FieldRepetitionType{req, req}, Type: sch.Type_INT32},
+	{Path: []string{"box", "mid", "own", "l"}, Reps: []sch.FieldRepetitionType{req, req, opt, rep}, Type: sch.Type_INT32},
+	{Path: []string{"t3", "own", "inner", "l"}, Reps: []sch.FieldRepetitionType{req, opt, req, rep}, Type: sch.Type_INT64},
+	{Path: []string{"t4", "own", "deepr", "l"}, Reps: []sch.FieldRepetitionType{req, opt, opt, rep}, Type: sch.Type_BYTE_ARRAY},
+	{Path: []string{"t6", "mid", "own", "l"}, Reps: []sch.FieldRepetitionType{opt, req, opt, rep}, Type: sch.Type_BOOLEAN},
 	{Path: []string{"tail"}, Reps: []sch.FieldRepetitionType{req}, Type: sch.Type_BYTE_ARRAY},
 }
 
